@@ -401,7 +401,7 @@ def t_random(seed, n):
 
 
 def tasks(tier, seed):
-    ts = [{"name": "faults", "fn": "t_faults"}, {"name": "ranges", "fn": "t_ranges"}]
+    ts = [{"name": "faults", "fn": "t_faults"}, {"name": "ranges", "fn": "t_ranges"}, {"name": "long", "fn": "t_long"}]
     ts += [{"name": "trees-%d" % k, "fn": "t_trees", "kw": {"shard": k, "nshards": 8}} for k in range(8)]
     n = 2500 if tier == "quick" else 40000
     for k in range(6):
@@ -411,6 +411,32 @@ def tasks(tier, seed):
     for k in range(4):
         ts.append({"name": "textfuzz-%d" % k, "fn": "t_textfuzz", "kw": {"seed": mix(seed, ID, "textfuzz", k), "n": 1200 if tier == "quick" else 20000}})
     return ts
+
+
+def t_long():
+    """long and deep but legal queries (chains of up to 100 operands, depth up to 99, 130 selectors / segments): must compile"""
+    from ..gen import longq
+    stats = Stats()
+    rng = random.Random(17)
+    n = 0
+    for name, e in longq.long_filters():
+        ast = ["q", "$", [["c", [["f", e]]]]]
+        if T.check_top_query(ast):
+            raise AssertionError("harness: long filter %s is not well-typed" % name)
+        for j in range(3):
+            text = Renderer(rng if j else None).query(ast, top=True)
+            expect_valid(stats, text, jsonpath.DEFAULT_ENV, {"text": text, "expect": "valid", "origin": "long", "name": name})
+            n += 1
+        stats.nt("long", name)
+    for name, ast in longq.long_queries():
+        for j in range(2):
+            text = Renderer(rng if j else None).query(ast, top=True)
+            expect_valid(stats, text, jsonpath.DEFAULT_ENV, {"text": text, "expect": "valid", "origin": "long", "name": name})
+            n += 1
+        stats.nt("long", name)
+    stats.subspaces.append({"name": "legal queries at sizes 8..100 (operand chains, parenthesis / negation / nested-filter depth) and 10..130 (selectors, segments), "
+                                    "large indices and slices, 2-3 spellings each", "size": n, "exhaustive": True})
+    return stats
 
 
 def t_atheris(seed, seconds):
